@@ -10,7 +10,7 @@
      (none while one is pending).  propose_spec: the whole MsgPropose path of step_leader.
    * pending_covers, as the invariant ConfBound ("every membership-change entry held by the
      log - unstable or stored - above applied has index <= pending_conf_index"):
-     established by become_leader (become_leader_pending / _covers / _covers_persisted),
+     established by become_leader (become_leader_pending / _covers),
      preserved by the leader's MsgPropose path and by commit_apply including the auto-leave
      append (autoleave_sets_pending is part of commit_apply_spec), and kept, as
      "role = Leader -> ConfBound", by EVERY API function of the Raft model (step, tick,
@@ -19,9 +19,12 @@
      maybe_free_inflight_buffers, set_max_apply_unpersisted_log_limit,
      enable_group_commit, assign_commit_groups) and by every function of the RawNode
      model (the C09_leader_bound theorems).  The only hypothesis, needed where an election can be won
-     inside the call, is "last_index = persisted -> LogBounded" on the pre-state log;
-     C09_RepInv_gives_bound derives it from C14's RaftLog invariant when no snapshot is
-     pending.  Consequence (one_pending_own of DESIGN.md): while applied <
+     inside the call, is LogBounded on the pre-state log (before fix 19c179c, which removed
+     become_leader's assertion last_index = persisted, it was needed only for a fully
+     persisted log; that weaker hypothesis no longer suffices:
+     C09_become_leader_covers_persisted_refuted);
+     C09_RepInv_gives_bound_no_stale_tail / C09_RepInv_gives_bound derive it from C14's
+     RaftLog invariant when no snapshot is pending and the store holds no stale tail.  Consequence (one_pending_own of DESIGN.md): while applied <
      pending_conf_index no membership change passes the filter, and every
      membership-change entry above applied is at or below pending_conf_index.
    * hup_spec / hup_guard / hup_blocked, has_unapplied_spec, scan_conf_false / _true,
@@ -31,11 +34,13 @@
      regression guard for /repo a8252b4); what the answer means in
      terms of the pages slice returned; a positive answer exhibits a real log entry.
      step_campaign_guard: through Raft::step a node ends up (pre-)candidate only if nothing
-     started, or a pre-candidate won its pre-vote, or hup ran after a negative scan.
+     started, or a pre-candidate won its pre-vote, or hup ran on a promotable node after a
+     negative scan.
    * candidate_stepdown and the complete case analysis maybe_commit_by_vote_spec.
    * not_promotable_quiet: tick_election, tick, MsgTimeoutNow through step_follower and
      through step in every role and message term never start a campaign when
-     promotable = false.  promotable_iff_voter after post_conf_change, hence after
+     promotable = false; since fix 8deb47c hup itself refuses (hup_nonpromotable), so neither
+     do a local MsgHup nor RawNode::campaign (not_promotable_hup_step / _rn_campaign).  promotable_iff_voter after post_conf_change, hence after
      raft_apply_conf_change (apply_conf_change_conf) and restore (restore_true).
    * apply_conf_change_err_untouched, apply_conf_change_conf, apply_conf_change_spec: the
      new configuration is ConfChange.apply_conf_change (previous configuration, tracked
@@ -189,6 +194,19 @@ Example C09_become_leader_example :
     r_pending_conf_index r' = 3 /\ last_index (r_log r') = 4.
 Proof. eexists. split; [vm_compute; reflexivity|]. vm_compute. split; reflexivity. Qed.
 
+(* fix 19c179c: a single-voter follower with an unpersisted tail (last_index 2 > persisted 1)
+   campaigns and becomes leader - no panic - with its own Progress matched = persisted *)
+Example C09_leader_with_unpersisted_tail_example :
+  last_index (r_log C09Samples.s_solo_tail) = 2 /\ persisted (r_log C09Samples.s_solo_tail) = 1 /\
+  exists r', hup C09Samples.s_solo_tail false = Ok r' /\
+    r_state r' = Leader /\ r_term r' = 3 /\ last_index (r_log r') = 3 /\
+    persisted (r_log r') = 1 /\ r_pending_conf_index r' = 2 /\
+    option_map matched (get_pr r' (r_id r')) = Some (persisted (r_log r')).
+Proof.
+  split; [vm_compute; reflexivity|]. split; [vm_compute; reflexivity|].
+  eexists. split; [vm_compute; reflexivity|]. vm_compute. repeat split.
+Qed.
+
 (* the MsgPropose path of step_leader, completely *)
 Theorem C09_propose_spec :
   forall r m r' c,
@@ -293,21 +311,33 @@ Example C09_auto_leave_example :
       = [(4, EntryConfChangeV2, [])].
 Proof. eexists. split; [vm_compute; reflexivity|]. vm_compute. repeat split. Qed.
 
-(* the same with the hypothesis in the form the invariant theorems use: the bound on the
-   log is needed only if the log is fully persisted (become_leader asserts that) *)
-Theorem C09_become_leader_covers_persisted :
-  forall r r', become_leader r = Ok r' ->
-    (last_index (r_log r) = persisted (r_log r) -> LogBounded (r_log r)) ->
-    ConfBound r' /\ r_state r' = Leader.
-Proof. exact become_leader_ConfBound'. Qed.
-Print Assumptions C09_become_leader_covers_persisted.
+(* Before fix 19c179c become_leader asserted last_index = persisted and the bound on the log
+   was needed only for a fully persisted log (C09_become_leader_covers_persisted).  That
+   statement is FALSE of the fixed model - a candidate whose unstable entries have truncated
+   the log under a stale stored tail may now become leader - so the hypothesis of every
+   election theorem below is LogBounded itself: *)
+Theorem C09_become_leader_covers_persisted_refuted :
+  exists r r', become_leader r = Ok r' /\
+    (last_index (r_log r) = persisted (r_log r) -> LogBounded (r_log r)) /\
+    ~ ConfBound r'.
+Proof. exact become_leader_covers_persisted_refuted. Qed.
+Print Assumptions C09_become_leader_covers_persisted_refuted.
 
-(* ... and that hypothesis follows from the RaftLog representation invariant of C14
-   (M/RaftLogProofs.v) when no snapshot is pending *)
+(* LogBounded follows from the RaftLog representation invariant of C14 (M/RaftLogProofs.v)
+   when no snapshot is pending and the store does not reach beyond the log's last index
+   (no stale stored tail): in particular for a log whose unstable entries extend the store
+   (a single voter leading with an unpersisted tail) ... *)
+Theorem C09_RepInv_gives_bound_no_stale_tail :
+  forall rw l, RaftLogProofs.RepInv rw l -> u_snapshot (unst l) = None ->
+    storage_last_index (store l) <= last_index l -> LogBounded l.
+Proof. exact RepInv_LBP. Qed.
+Print Assumptions C09_RepInv_gives_bound_no_stale_tail.
+
+(* ... and for a fully persisted log (the statement pinned before the fix, still true) *)
 Theorem C09_RepInv_gives_bound :
   forall rw l, RaftLogProofs.RepInv rw l -> u_snapshot (unst l) = None ->
     (last_index l = persisted l -> LogBounded l).
-Proof. exact RepInv_LBP. Qed.
+Proof. exact RepInv_bound_persisted. Qed.
 Print Assumptions C09_RepInv_gives_bound.
 
 (* ConfBound covers in particular the logical log of C14 *)
@@ -322,12 +352,13 @@ Print Assumptions C09_ConfBound_logical.
 (* ------------------------------------------------------------------ *)
 (* the leader invariant "r_state r = Leader -> ConfBound r" is kept by EVERY API function
    of the node model.  The bound on the pre-state log is needed only where an election can
-   be won inside the call (become_leader sets pending_conf_index := last_index). *)
+   be won inside the call (become_leader sets pending_conf_index := last_index); since fix
+   19c179c it is LogBounded itself, no longer "last_index = persisted -> LogBounded". *)
 
 Theorem C09_leader_bound_step :
   forall r m r' c,
   step r m = Ok (r', c) ->
-  (last_index (r_log r) = persisted (r_log r) -> LogBounded (r_log r)) ->
+  LogBounded (r_log r) ->
   (r_state r = Leader -> ConfBound r) -> (r_state r' = Leader -> ConfBound r').
 Proof. exact step_LInv. Qed.
 Print Assumptions C09_leader_bound_step.
@@ -335,7 +366,7 @@ Print Assumptions C09_leader_bound_step.
 Theorem C09_leader_bound_tick :
   forall r r' b,
   tick r = Ok (r', b) ->
-  (last_index (r_log r) = persisted (r_log r) -> LogBounded (r_log r)) ->
+  LogBounded (r_log r) ->
   (r_state r = Leader -> ConfBound r) -> (r_state r' = Leader -> ConfBound r').
 Proof. exact tick_LInv. Qed.
 Print Assumptions C09_leader_bound_tick.
@@ -381,15 +412,14 @@ Proof. exact misc_api_LInv. Qed.
 Print Assumptions C09_leader_bound_misc_api.
 
 (* LInv r := r_state r = Leader -> ConfBound r;  RInv n := LInv (rn_raft n);
-   RB n := LBP (r_log (rn_raft n)), LBP l := last_index l = persisted l -> LogBounded l *)
+   RB n := LBP (r_log (rn_raft n)), LBP l := LogBounded l *)
 Theorem C09_LInv_def : forall r, LInv r <-> (r_state r = Leader -> ConfBound r).
 Proof. exact C09_LInv_def_pin. Qed.
 Print Assumptions C09_LInv_def.
 
 Theorem C09_RInv_def :
   forall n, (RInv n <-> (r_state (rn_raft n) = Leader -> ConfBound (rn_raft n))) /\
-            (RB n <-> (last_index (r_log (rn_raft n)) = persisted (r_log (rn_raft n)) ->
-                       LogBounded (r_log (rn_raft n)))).
+            (RB n <-> LogBounded (r_log (rn_raft n))).
 Proof. exact C09_RInv_def_pin. Qed.
 Print Assumptions C09_RInv_def.
 
@@ -444,7 +474,7 @@ Proof.
     repeat destruct H as [H|H]; try contradiction; subst e; vm_compute in Hcf; discriminate. }
   split; [exact Hb|]. split; [exact Hc|]. split; [reflexivity|].
   eexists. split; [vm_compute; reflexivity|]. split; [reflexivity|]. split.
-  - refine (C09_leader_bound_step C09Samples.s_leader C09Samples.s_prop _ E_OK _ (fun _ => Hb)
+  - refine (C09_leader_bound_step C09Samples.s_leader C09Samples.s_prop _ E_OK _ Hb
               (fun _ => Hc) _); [vm_compute; reflexivity|reflexivity].
   - eexists. split; [left; reflexivity|]. vm_compute. repeat split.
 Qed.
@@ -468,13 +498,14 @@ Theorem C09_hup_spec :
   forall r tl r',
   hup r tl = Ok r' ->
   (is_leader r = true /\ r' = r) \/
-  (is_leader r = false /\
+  (is_leader r = false /\ r_promotable r = false /\ r' = r) \/
+  (is_leader r = false /\ r_promotable r = true /\
    (exists low, (match u_maybe_first_index (unst (r_log r)) with
                     | Some i => Ok i
                     | None => fi <- first_index (r_log r) ;; Ok (N.max (applied (r_log r) + 1) fi)
                     end) = Ok low /\
       has_unapplied_conf_changes r low (committed (r_log r) + 1) = Ok true) /\ r' = r) \/
-  (is_leader r = false /\
+  (is_leader r = false /\ r_promotable r = true /\
    (exists low, (match u_maybe_first_index (unst (r_log r)) with
                     | Some i => Ok i
                     | None => fi <- first_index (r_log r) ;; Ok (N.max (applied (r_log r) + 1) fi)
@@ -486,11 +517,12 @@ Proof. exact hup_spec. Qed.
 Print Assumptions C09_hup_spec.
 
 (* any change made by hup - becoming (pre-)candidate or leader, raising the term, sending
-   a vote request - implies the scan answered "no unapplied membership change" *)
+   a vote request - implies the node is promotable and the scan answered "no unapplied
+   membership change" *)
 Theorem C09_hup_guard :
   forall r tl r',
   hup r tl = Ok r' -> r' <> r ->
-  is_leader r = false /\
+  is_leader r = false /\ r_promotable r = true /\
   (exists low, (match u_maybe_first_index (unst (r_log r)) with
                     | Some i => Ok i
                     | None => fi <- first_index (r_log r) ;; Ok (N.max (applied (r_log r) + 1) fi)
@@ -515,7 +547,7 @@ Print Assumptions C09_hup_blocked.
    entries - and at or above applied + 1 *)
 Theorem C09_hup_window_not_compacted :
   forall r tl r',
-  hup r tl = Ok r' -> is_leader r = false ->
+  hup r tl = Ok r' -> is_leader r = false -> r_promotable r = true ->
   u_maybe_first_index (unst (r_log r)) = None ->
   exists low fi b,
     (match u_maybe_first_index (unst (r_log r)) with
@@ -598,7 +630,7 @@ Theorem C09_step_campaign_guard :
   (r_state r = PreCandidate /\ r_state r' = Candidate /\ m_type m = MsgRequestPreVoteResponse) \/
   (exists r1 tl,
      (r1 = r \/ exists l, r_term r < m_term m /\ become_follower r (m_term m) l = Ok r1) /\
-     is_leader r1 = false /\
+     is_leader r1 = false /\ r_promotable r1 = true /\
      (exists low, (match u_maybe_first_index (unst (r_log r1)) with
                     | Some i => Ok i
                     | None => fi <- first_index (r_log r1) ;; Ok (N.max (applied (r_log r1) + 1) fi)
@@ -682,6 +714,27 @@ Theorem C09_not_promotable_timeout_now_step :
   (r' = r \/ (r_term r < m_term m /\ become_follower r (m_term m) Progress.INVALID_ID = Ok r')).
 Proof. exact not_promotable_timeout_now_step. Qed.
 Print Assumptions C09_not_promotable_timeout_now_step.
+
+(* fix 8deb47c: hup itself refuses on a non-promotable node, for both campaign flavours;
+   hence a local MsgHup through Raft::step and RawNode::campaign change nothing.  With
+   C09_promotable_iff_voter: a node outside the voters of its own configuration never
+   campaigns, whatever the entry point (election timeout, MsgTimeoutNow, MsgHup,
+   RawNode::campaign) *)
+Theorem C09_hup_nonpromotable :
+  forall r tl, r_promotable r = false -> hup r tl = Ok r.
+Proof. exact hup_nonpromotable. Qed.
+Print Assumptions C09_hup_nonpromotable.
+
+Theorem C09_not_promotable_hup_step :
+  forall r m, r_promotable r = false -> m_type m = MsgHup -> m_term m = 0 ->
+    step r m = Ok (r, E_OK).
+Proof. exact not_promotable_hup_step. Qed.
+Print Assumptions C09_not_promotable_hup_step.
+
+Theorem C09_not_promotable_rn_campaign :
+  forall n, r_promotable (rn_raft n) = false -> rn_campaign n = Ok (n, E_OK).
+Proof. exact not_promotable_rn_campaign. Qed.
+Print Assumptions C09_not_promotable_rn_campaign.
 
 Example C09_not_promotable_example :
   r_promotable C09Samples.s_learner = false /\
